@@ -9,12 +9,7 @@ IMPORTS = ("From TkModel Require Import Base Dec Acct Txn Price.\nFrom TkSpec Re
 POOL = ["EUR", "USD", "ACME", "XAU", "He·bar", "€"]
 LT_COQ = {"none": "LtNone", "last-price": "LtLastPrice", "txn-time": "LtTxnTime", "given-time": "LtGivenTime"}
 DAY = 86400 * 10 ** 9
-TS_MAX = 253402207200999999999
-
-F12_TEXT = ("F12 price file with a self pair of the report commodity (`P .. EUR 2 EUR`): postings already in the "
-            "report commodity are multiplied by that rate instead of staying unchanged")
-TSMAX_TEXT = ("F17 last-price ignores a price line stamped exactly 9999-12-30T22:00:00.999999999Z (jiff Timestamp::MAX, "
-              "accepted by the parser): the latest entry overall is not applied")
+TS_MAX = 253402207200999999999   # jiff Timestamp::MAX (corpus 01/02: regression of the fixed finding F19)
 
 
 # ---------------------------------------------------------------- time stamps
@@ -397,19 +392,11 @@ def judge(run, c, findings):
     if not (bits & 8):
         # duplicate (instant, base, eq): outside the quantifier of the property; statistics only
         return "duplicate-keys:" + ("model-agrees" if bits & 1 else "model-differs")
-    fstat = {f["id"]: f.get("status") for f in findings}
     if not (bits & 2):
-        known = None
-        if (bits & 16) and (bits & 1):
-            known = ("F12", F12_TEXT)
-        elif (bits & 32) and c["lt"] == "last-price" and (bits & 1):
-            known = ("F17", TSMAX_TEXT)
-        if known and fstat.get(known[0], "open") != "fixed":
-            run.known_finding(known[1])
-            return "known:" + known[0]
+        # F12 (self pair) and F19 (line stamped Timestamp::MAX) are fixed: such inputs are ordinary cases now
         run.violation("price conversion contradicts the specification (rate = latest applicable entry of the pair into the report "
-                      "commodity; other postings unchanged; metadata = rates applied)" +
-                      (" — regression of " + known[0] if known else ""),
+                      "commodity; postings without commodity / in the report commodity / without applicable rate unchanged; "
+                      "metadata = cache entries of the used commodities)",
                       replay_obj(c, c["impl"]))
         return "violation"
     if not (bits & 1):
@@ -440,7 +427,7 @@ def main(run):
     findings = load_findings("C07")
     verdicts, stages, tagc, lts = {}, {}, {}, {}
     distinct = set()
-    n_conv = n_posts = n_perm = 0
+    n_conv = n_posts = n_perm = n_self = n_listed_unapplied = 0
     for c in cases:
         v = judge(run, c, findings)
         verdicts[v] = verdicts.get(v, 0) + 1
@@ -457,6 +444,11 @@ def main(run):
                 n_posts += sum(len(t) for t in c["impl"]["converted"])
             if c.get("perm_res") is not None:
                 n_perm += 1
+            if c["bits"] & 16:
+                n_self += 1
+            if isinstance(c["impl"], dict) and c["rc"] is not None:
+                # residual of F12 (see C07_metadata_all_applied_refuted): a record target -> target is listed but never applied
+                n_listed_unapplied += sum(1 for m in c["impl"].get("metadata", []) if m["source"] == c["rc"])
             if len(run.cov["samples"]) < 3 and c["src"] == "gen" and c.get("stage") == "done":
                 run.cov["samples"].append({"lookup_type": c["lt"], "report_commodity": c["rc"], "before_time": c["before"],
                                            "price_file": c["file_text"], "journal": c["journal"],
@@ -466,11 +458,12 @@ def main(run):
                        "0-6 lines per pair in shuffled order with date-only / local / Z / offset / fractional time stamps, comments and blank lines; "
                        "transaction and given-time instants equal to, 1 ns around, before and after the entries; every posting on its own account so that "
                        "register totals and balance sums are the converted postings; all three lookups and none; each distinct-key file is run a second "
-                       "time with its lines permuted; separate streams: self pair (F12), duplicate keys (statistics only), configuration errors. "
+                       "time with its lines permuted; separate streams: self pair of the report commodity (F12, fixed), duplicate keys (statistics only), configuration errors. "
                        "non-trivial = at least one posting converted; distinct = distinct converted outputs")
     run.violations.sort(key=lambda v: not v[2])      # violations with a concrete failing input first
     run.notes.update({"stages": stages, "verdict_classes": verdicts, "tags": tagc, "lookup_types": lts,
-                      "postings_observed": n_posts, "postings_converted": n_conv, "permuted_file_runs": n_perm})
+                      "postings_observed": n_posts, "postings_converted": n_conv, "permuted_file_runs": n_perm,
+                      "files_with_self_pair": n_self, "metadata_records_listed_but_never_applied(self pair)": n_listed_unapplied})
     return run.finish(info)
 
 
